@@ -226,6 +226,17 @@ func writeEvidence(opt *Options, rep *CheckReport, notCovered []string, violatio
 	if b := runBounded(opt); b != nil {
 		cov["bounded_checks"] = b
 	}
+	if rep.Cross != nil {
+		cov["cross_check"] = map[string]any{
+			"what":            "thorough tier: every discharged path query re-submitted to the other two solvers (20 s each)",
+			"also_unsat":      rep.Cross["agree"],
+			"no_second_verdict": rep.Cross["single"],
+			"disagreements":   rep.Cross["disagree"],
+		}
+	}
+	if opt.Tier == "thorough" {
+		cov["selftest"] = runSelftest(opt)
+	}
 	cov["trusted_base"] = append(append([]string{"gocv VC generator (unverified)", "SMT solvers z3 4.8.12, z3-new 5.1.0, cvc5 1.0"}, tb...), unc...)
 	if _, ok := cov["samples"]; !ok {
 		cov["samples"] = []any{}
@@ -241,6 +252,38 @@ func writeEvidence(opt *Options, rep *CheckReport, notCovered []string, violatio
 	ass = append(ass, rep.Assumptions...)
 	ev := &Evidence{PropertyID: opt.Property, Tier: opt.Tier, Seed: opt.Seed, Level: "proof", Coverage: cov, Assumptions: ass, WallS: rep.Wall, Violations: violations}
 	writeJSON(filepath.Join(opt.VerifDir, "evidence", opt.Property+".json"), ev)
+}
+
+// runSelftest (thorough tier): the must-fail corpus of this property (deliberately broken bodies and
+// pre-fix canaries, applied through an overlay) must be caught, the benign edits must stay silent.
+// It measures the sensitivity of the check; it never changes the verdict about /repo.
+func runSelftest(opt *Options) any {
+	script := filepath.Join(opt.VerifDir, "selftest", "run.py")
+	if _, err := os.Stat(script); err != nil {
+		return map[string]any{"error": "selftest/run.py missing"}
+	}
+	cmd := exec.Command("python3", script, opt.Property)
+	cmd.Dir = opt.VerifDir
+	cmd.Env = append(os.Environ(), "VERIF_SELFTEST_CHILD=1")
+	out, _ := cmd.CombinedOutput()
+	var lines []string
+	caught, missed, silent := 0, 0, 0
+	for _, l := range strings.Split(strings.TrimSpace(string(out)), "\n") {
+		if l == "" {
+			continue
+		}
+		lines = append(lines, truncate(l, 300))
+		switch {
+		case strings.HasPrefix(l, "ok") && strings.Contains(l, "caught by"):
+			caught++
+		case strings.HasPrefix(l, "ok") && strings.Contains(l, "silent"):
+			silent++
+		case strings.HasPrefix(l, "FAIL"):
+			missed++
+			fmt.Printf("warning: self-test regression: %s\n", truncate(l, 300))
+		}
+	}
+	return map[string]any{"mutants_caught": caught, "benign_silent": silent, "regressions": missed, "lines": lines}
 }
 
 var boundedProps = map[string]bool{"C13": true, "C14": true, "C08": true, "C19": true, "C06": true, "C11": true, "C18": true}
